@@ -276,6 +276,7 @@ type bizEntry struct {
 }
 
 type PipeSim struct {
+	reuse  *syncer.RedisOutput // output object the next incarnation runs on (in-process restart)
 	r      *Run
 	cfg    PipeCfg
 	st     *Stream
@@ -325,7 +326,13 @@ func (ps *PipeSim) startIncarnation() {
 	ctx, cancel := context.WithCancel(context.Background())
 	in := &incarnation{id: id, ctx: ctx, cancel: cancel}
 	ps.r.Net.SetTag(id)
-	in.ro = syncer.NewRedisOutput(ps.cfg.outputConfig(ps.runID, ps.cpName))
+	if ps.reuse != nil {
+		// restart inside the same process: RedisInput.Run calls run() again with the SAME output object, whatever it
+		// remembers in memory (local checkpoint, bidirectional sequence/offset, frontier-miss fast path) is still there
+		in.ro, ps.reuse = ps.reuse, nil
+	} else {
+		in.ro = syncer.NewRedisOutput(ps.cfg.outputConfig(ps.runID, ps.cpName))
+	}
 	ps.inc = in
 	ps.incs = append(ps.incs, in)
 	ps.r.Logf("start incarnation %d", id)
